@@ -40,13 +40,14 @@ def main(pid, rep=None, finish=True):
             h_delay = rnd.choice([0, 5, 31, 45, 120])
             m_delay = rnd.choice([0, 0, 29.5, 31, 60])
             before = rnd.choice([0, 10, 29])             # the request line itself arrives late in the window
+            status = rnd.choice([20, 20, 21, 25, 29])    # every 2x status carries its body
             loop = VLoop()
             asyncio.set_event_loop(loop)
             try:
                 async def handler(req):
                     if h_delay:
                         await asyncio.sleep(h_delay)
-                    return GeminiResponse(status=20, meta="application/octet-stream" if kind == "bytes" else "text/gemini", body=body if body else None)
+                    return GeminiResponse(status=status, meta="application/octet-stream" if kind == "bytes" else "text/gemini", body=body if body else None)
 
                 def entry(req):
                     return handler(req)
@@ -64,7 +65,7 @@ def main(pid, rep=None, finish=True):
                     if not loop.advance_to_next_timer():
                         break
                 n += 1
-                want = (b"20 application/octet-stream\r\n" if kind == "bytes" else b"20 text/gemini\r\n") + (body if kind == "bytes" else body.encode("utf-8"))
+                want = (b"%d application/octet-stream\r\n" % status if kind == "bytes" else b"%d text/gemini\r\n" % status) + (body if kind == "bytes" else body.encode("utf-8"))
                 got = bytes(tr.wire)
                 if got != want or not tr.closing:
                     rep.violation({"formula": "ByteExact", "slow": True},
